@@ -14,7 +14,9 @@ Inductive ke_record :=
 | RCookie (c : list Z)                       (* type 5, not critical, body = cookie *)
 | RWarning (code : Z)                        (* type 3, critical, body uint16 *)
 | RError (code : Z)                          (* type 2, critical, body uint16 *)
-| RAlgorithm (algos : list Z).               (* type 4, critical, body = uint16 list *)
+| RAlgorithm (algos : list Z)                (* type 4, critical, body = uint16 list *)
+| RUnknown (ty : Z) (body : list Z).         (* a record type this code does not know, not critical
+                                                (no pack method: written by other implementations) *)
 
 Definition rec_eom := 0. Definition rec_nextproto := 1. Definition rec_error := 2.
 Definition rec_warning := 3. Definition rec_aead := 4. Definition rec_cookie := 5.
@@ -37,6 +39,7 @@ Definition pack_record (r : ke_record) : list Z :=
   | RWarning x => pack_simple rec_warning true (be_enc 2 x)
   | RError x => pack_simple rec_error true (be_enc 2 x)
   | RAlgorithm l => pack_simple rec_aead true (flat_map (be_enc 2) l)
+  | RUnknown ty body => pack_simple ty false body
   end.
 
 (* ExchangeMsg.Pack *)
@@ -70,6 +73,9 @@ Section ReadData.
   Variable rf : nat -> R -> outcome (list Z * R).
   (* rc n r: how the body of a cookie record is read (io.ReadFull in the current code) *)
   Variable rc : nat -> R -> outcome (list Z * R).
+  (* the reader after a read that failed: io.ReadFull fails only at the end of the stream,
+     having consumed whatever was left *)
+  Variable drained : R -> R.
 
   Definition err_of {A} (o : outcome A) : Z :=
     match o with Ok _ => 0 | Err c => c | Panic => 98 | OutOfFuel => e_fuel end.
@@ -87,24 +93,24 @@ Section ReadData.
         let t := Z.land ty 32767 in
         if t =? rec_eom then (d, 0, r1)
         else if t =? rec_nextproto then
-          match rf 2 r1 with Ok (_, r2) => read_data fuel' r2 d | o => (d, err_of o, r1) end
+          match rf 2 r1 with Ok (_, r2) => read_data fuel' r2 d | o => (d, err_of o, drained r1) end
         else if t =? rec_aead then
-          match rf 2 r1 with Ok (v, r2) => read_data fuel' r2 (kd_set_algo d (be_dec v)) | o => (d, err_of o, r1) end
+          match rf 2 r1 with Ok (v, r2) => read_data fuel' r2 (kd_set_algo d (be_dec v)) | o => (d, err_of o, drained r1) end
         else if t =? rec_cookie then
-          match rc blen r1 with Ok (c, r2) => read_data fuel' r2 (kd_add_cookie d c) | o => (d, err_of o, r1) end
+          match rc blen r1 with Ok (c, r2) => read_data fuel' r2 (kd_add_cookie d c) | o => (d, err_of o, drained r1) end
         else if t =? rec_server then
-          match rf blen r1 with Ok (a, r2) => read_data fuel' r2 (kd_set_server d a) | o => (d, err_of o, r1) end
+          match rf blen r1 with Ok (a, r2) => read_data fuel' r2 (kd_set_server d a) | o => (d, err_of o, drained r1) end
         else if t =? rec_port then
-          match rf 2 r1 with Ok (v, r2) => read_data fuel' r2 (kd_set_port d (be_dec v)) | o => (d, err_of o, r1) end
+          match rf 2 r1 with Ok (v, r2) => read_data fuel' r2 (kd_set_port d (be_dec v)) | o => (d, err_of o, drained r1) end
         else if t =? rec_error then
           match rf 2 r1 with
           | Ok (v, r2) => let code := be_dec v in
                           (d, (if code =? 0 then e_msg_critical else if code =? 1 then e_msg_badreq
                                else if code =? 2 then e_msg_internal else e_msg_unknown), r2)
-          | o => (d, err_of o, r1) end
+          | o => (d, err_of o, drained r1) end
         else if critical then (d, e_unknown_critical, r1)
-        else match rf blen r1 with Ok (_, r2) => read_data fuel' r2 d | o => (d, err_of o, r1) end
-      | o => (d, err_of o, r)
+        else match rf blen r1 with Ok (_, r2) => read_data fuel' r2 d | o => (d, err_of o, drained r1) end
+      | o => (d, err_of o, drained r)
       end
     end.
 End ReadData.
@@ -117,7 +123,7 @@ Definition rf_flat (n : nat) (s : list Z) : outcome (list Z * list Z) :=
 
 (* every iteration consumes a 4-byte header: length s / 4 + 1 iterations suffice *)
 Definition read_data_flat (s : list Z) (d : ke_data) : ke_data * Z * list Z :=
-  read_data (list Z) rf_flat rf_flat (S (length s)) s d.
+  read_data (list Z) rf_flat rf_flat (fun _ => []) (S (length s)) s d.
 
 (* ---------- the stream delivered in pieces ----------
    The reader (bufio.Reader on top of the TLS/QUIC stream) answers a Read of up to m > 0
@@ -151,8 +157,10 @@ Fixpoint rf_loop (fuel : nat) (n : nat) (acc : list Z) (r : reader) : outcome (l
   end.
 Definition rf_chunked (n : nat) (r : reader) : outcome (list Z * reader) := rf_loop n n [] r.
 
+Definition rd_drained (r : reader) : reader := {| rd_rest := []; rd_sched := rd_sched r |}.
+
 Definition read_data_chunked (r : reader) (d : ke_data) : ke_data * Z * reader :=
-  read_data reader rf_chunked rf_chunked (S (length (rd_rest r))) r d.
+  read_data reader rf_chunked rf_chunked rd_drained (S (length (rd_rest r))) r d.
 
 (* the cookie body as the code read it before commit 0924366: one Read into a buffer of
    the announced length; whatever did not arrive stays zero and stays in the stream *)
@@ -163,7 +171,7 @@ Definition rc_single (n : nat) (r : reader) : outcome (list Z * reader) :=
          match got with [] => Err e_eof | _ => Ok (zpad n got, r') end
   end.
 Definition read_data_chunked_pinned (r : reader) (d : ke_data) : ke_data * Z * reader :=
-  read_data reader rf_chunked rc_single (S (length (rd_rest r))) r d.
+  read_data reader rf_chunked rc_single rd_drained (S (length (rd_rest r))) r d.
 
 (* ---------- what a record list means for Data (specification side) ---------- *)
 
@@ -174,6 +182,7 @@ Definition canonical (r : ke_record) : bool :=
   | RPort p _ => (0 <=? p) && (p <? 65536)
   | RCookie c => bytes_okb c && (Z.of_nat (length c) <? 65536)
   | RAlgorithm [a] => (0 <=? a) && (a <? 65536)
+  | RUnknown ty body => (8 <=? ty) && (ty <? 32768) && bytes_okb body && (Z.of_nat (length body) <? 65536)
   | _ => false
   end.
 
